@@ -10,8 +10,20 @@ package hsrv
 import (
 	"fmt"
 	"net"
+	"net/http"
 	"reflect"
 )
+
+// VerifServerHook, if set, is called with the HTTP server before it starts
+// serving, for example to wrap its handler.
+var VerifServerHook func(*http.Server)
+
+// verifServer calls VerifServerHook, if set.
+func verifServer(hs *http.Server) {
+	if f := VerifServerHook; nil != f {
+		f(hs)
+	}
+}
 
 // VerifSwapNetListener replaces the net.Listener underneath s's TLS listener
 // with the one returned by f, which is passed the current one.  The TLS
